@@ -80,6 +80,12 @@ TOLS = [0.25, 0.5, 0.1, 1e-3, 0.0, 1.0, 1e-9, 0.05, 2.0 ** -30, 0.75, 1e-4]
 COEF = [1.0, -1.0, 0.5, 2.0, 0.0, 3.0, -0.25, 0.1, 1e3, 1e-3, 7.0]
 FAMILIES = ["quad", "quad", "lin", "lin", "abs", "sin", "const", "step", "hash", "intstep", "prod", "huge"]
 DELTA = 1e-4
+# representations of a design vector the code accepts (Individual.__init__ needs .copy(): lists and arrays, not tuples):
+# a list of Python floats (what the generators produce), of Python ints only (user-given start points, re-draws of
+# parameters with parameter_type 'integer'), mixed int / float, lists of numpy.int64 / numpy.float64 scalars (values read
+# from arrays / data frames), and a float ndarray (flag vec_numpy; what the scipy / nlopt wrappers pass)
+REPS = ["float", "float", "float", "float", "int", "int", "mixed", "mixed", "npint", "npfloat", "npmixed"]
+IGRID = [0, 1, 2, -1, -2, 3, 5, -3, 10, 1, 0, 2]
 
 
 def bits(x):
@@ -165,11 +171,24 @@ def gen_case(rng, forced=None):
     m = forced.get("m", rng.choice([1, 1, 2]))
     nb = forced.get("nb", rng.choice([1, 2, 2, 3, 3, 4]) if rng.random() < 0.93 else rng.choice([5, 6, 8]))
     grid = VGRID[:6] if rng.random() < 0.4 else VGRID
-    pool = [[rng.choice(grid) for _ in range(n)] for _ in range(3)]
+    rep = forced.get("flags", {}).get("rep") or ("float" if "batches" in forced else rng.choice(REPS))
+    if rep in ("int", "npint"):
+        types = ["i"] * n
+    elif rep in ("mixed", "npmixed"):
+        types = [rng.choice("if") for _ in range(n)]
+        if n > 1 and len(set(types)) == 1:
+            types[rng.randrange(n)] = "f" if types[0] == "i" else "i"
+    else:
+        types = ["f"] * n
+    types = forced.get("types", types)
+
+    def coord(i):
+        return float(rng.choice(IGRID)) if types[i] == "i" else rng.choice(grid)
+    pool = [[coord(i) for i in range(n)] for _ in range(3)]
     batches = []
     for _ in range(nb):
         k = rng.choice([1, 2, 2, 3, 4])
-        batches.append([list(rng.choice(pool)) if rng.random() < 0.3 else [rng.choice(grid) for _ in range(n)] for _ in range(k)])
+        batches.append([list(rng.choice(pool)) if rng.random() < 0.3 else [coord(i) for i in range(n)] for _ in range(k)])
     if "batches" in forced:
         batches = forced["batches"]
     tols = forced.get("tols", [rng.choice(TOLS) for _ in range(n)])
@@ -190,9 +209,13 @@ def gen_case(rng, forced=None):
         pre = forced["pre"]
     elif "batches" not in forced and rng.random() < 0.1:
         pre = [[rng.random() < 0.5 for _ in b] for b in batches]
-    flags = {"vec_numpy": rng.random() < 0.1, "reuse_list": rng.random() < 0.25, "shared_param": rng.random() < 0.3,
-             "constr": rng.random() < 0.15, "id_collide": rng.random() < 0.15}
+    flags = {"vec_numpy": rep == "float" and rng.random() < 0.15, "reuse_list": rng.random() < 0.25, "shared_param": rng.random() < 0.3,
+             "constr": rng.random() < 0.15, "id_collide": rng.random() < 0.15, "rep": rep,
+             # every parameter declared 'parameter_type': 'integer': Job's re-draw of a failed design is then a list of ints
+             "int_params": rep == "int" and rng.random() < 0.5}
     flags.update(forced.get("flags", {}))
+    if flags["vec_numpy"]:
+        flags["rep"], types = "float", ["f"] * n
     # scripted transient failures, by GLOBAL call number of the objective (failed calls included): runs of 1..4
     # consecutive numbers (a run belongs to one job; five in a row would raise RuntimeError: never generated)
     per = (2 * n + 1) if wc else (n + 1)
@@ -207,8 +230,10 @@ def gen_case(rng, forced=None):
             "criteria": forced.get("criteria", [rng.choice(["minimize", "maximize"]) for _ in range(m)]),
             # a re-drawn design holds a Python list: with numpy vectors the objective would return numpy.float64 for some designs
             # and exact floats for others (sum() then switches algorithm per design): make it return numpy.float64 throughout
-            "ret_numpy": True if (fails and flags["vec_numpy"]) else forced.get("ret_numpy", rng.random() < 0.2),
-            "int_tol": rng.random() < 0.05,
+            # the same for lists of numpy scalars (arithmetic on them yields numpy.float64, a neighbour of an int design mixes both)
+            "ret_numpy": True if ((fails and flags["vec_numpy"]) or flags["rep"].startswith("np")) else forced.get("ret_numpy", rng.random() < 0.2),
+            "int_tol": rng.random() < (0.3 if "i" in types else 0.05),
+            "types": types,
             "batches": batches}
 
 
@@ -225,8 +250,9 @@ def gen_algo_case(rng):
             "criteria": [rng.choice(["minimize", "maximize"]) for _ in range(m)], "ret_numpy": False, "int_tol": False,
             "pop": pop, "gens": gens, "seed": rng.randrange(10 ** 6), "batches": None,
             "again": None, "pre": None,
+            "types": ["f"] * n,
             "flags": {"vec_numpy": False, "reuse_list": False, "shared_param": rng.random() < 0.3, "constr": rng.random() < 0.3,
-                      "id_collide": False}}
+                      "id_collide": False, "rep": "float", "int_params": False}}
 
 
 def close(a, b):
@@ -265,6 +291,9 @@ def run(ctx):
             self.parameters = [{'name': 'x%d' % i, 'initial_value': 0.5, 'bounds': [-2.0, 3.0],
                                 'tol': (int(t) if case["int_tol"] and float(t) == int(t) and t != 0 else t)}
                                for i, t in enumerate(case["tols"])]
+            if case["flags"].get("int_params"):
+                for q in self.parameters:
+                    q['parameter_type'] = 'integer'
             if case["flags"]["shared_param"] and len(set(case["tols"])) == 1:
                 self.parameters = [self.parameters[0]] * len(case["tols"])      # one dict object for every axis
             self.constr = case["flags"]["constr"]
@@ -308,7 +337,11 @@ def run(ctx):
             if other_failures[0] > 40:
                 return
         inp = {k: case.get(k) for k in ("mode", "wc", "n", "m", "tols", "objs", "criteria", "batches", "again", "pre", "fails", "seed",
-                                        "pop", "gens")}
+                                        "pop", "gens", "types", "int_tol")}
+        inp["design_vectors_given_as"] = ("float ndarray" if case["flags"].get("vec_numpy") else
+                                          {"float": "list of float", "int": "list of int", "mixed": "list of int / float (see types)",
+                                           "npint": "list of numpy.int64", "npfloat": "list of numpy.float64",
+                                           "npmixed": "list of numpy.int64 / numpy.float64 (see types)"}[case["flags"].get("rep", "float")])
         inp.update(kw)
         ctx.oracle_failures.append({"what": what, "input": inp, "match": {"kind": kind}})
 
@@ -607,6 +640,19 @@ def run(ctx):
             ajob.VectorAndNumbers = REAL_VN
             current[0] = None
 
+    def represent(case, v):
+        """the design vector v (floats; integral where the case says 'i') in the representation of the case"""
+        rep, types = case["flags"].get("rep", "float"), case.get("types") or ["f"] * len(v)
+        out = []
+        for t, ty in zip(v, types):
+            if ty == "i":
+                if float(t) != int(t):
+                    raise AssertionError("harness: non-integral value for an int coordinate")
+                out.append(np.int64(int(t)) if rep.startswith("np") else int(t))
+            else:
+                out.append(np.float64(t) if rep.startswith("np") else float(t))
+        return out
+
     def implementation_(case):
         n, m = case["n"], case["m"]
         del signed_rec[:]
@@ -664,7 +710,7 @@ def run(ctx):
             for bi, batch in enumerate(case["batches"]):
                 if case["flags"]["id_collide"]:
                     Individual.counter = 0           # ids collide between batches and with earlier children
-                new = [Individual(np.array(v, dtype=np.float64) if case["flags"]["vec_numpy"] else list(v)) for v in batch]
+                new = [Individual(np.array(v, dtype=np.float64) if case["flags"]["vec_numpy"] else represent(case, v)) for v in batch]
                 number_new(new)
                 if plain is not None:
                     todo = [x for x, flag in zip(new, case["pre"][bi]) if flag]
@@ -775,7 +821,7 @@ def run(ctx):
     hist = {"worst_case": 0, "gradient": 0, "batches": {}, "designs_per_case": {}, "n": {}, "m": {}, "objective_kinds": {},
             "algorithm_runs": {}, "objective_calls": 0, "cells": 0, "raised_index_error": 0, "zero_sensitivity": 0,
             "nonfinite_values": 0, "duplicate_vectors_in_case": 0,
-            "resubmission_cases": 0, "pre_evaluated_cases": 0, "flags": {},
+            "resubmission_cases": 0, "pre_evaluated_cases": 0, "flags": {}, "design_vector_representation": {},
             "cases_with_transient_failures": 0, "failed_calls": 0, "failure_runs_by_length": {}, "failed_calls_on_designs": 0,
             "failed_calls_on_neighbours": 0, "f13_designs": 0}
 
@@ -796,7 +842,7 @@ def run(ctx):
         c, e = encode(case, obs, table)
         cases.append(c)
         expected.append(e)
-        mt = {k: case[k] for k in ("mode", "wc", "n", "m", "tols", "objs", "criteria", "batches", "again", "pre", "flags", "fails", "tape")}
+        mt = {k: case[k] for k in ("mode", "wc", "n", "m", "tols", "objs", "criteria", "batches", "again", "pre", "flags", "types", "fails", "tape")}
         for k in ("pop", "gens", "seed"):
             if k in case:
                 mt[k] = case[k]
@@ -828,7 +874,9 @@ def run(ctx):
         hist["resubmission_cases"] += any(case["again"])
         hist["pre_evaluated_cases"] += any(any(p) for p in case["pre"])
         for k, v in case["flags"].items():
-            if v:
+            if k == "rep":
+                bump(hist["design_vector_representation"], ("float ndarray" if case["flags"]["vec_numpy"] else v) + ("/worst_case" if case["wc"] else "/gradient"))
+            elif v:
                 bump(hist["flags"], k)
         if case["mode"] != "direct":
             bump(hist["algorithm_runs"], case["mode"] + ("/worst_case" if case["wc"] else "/gradient"))
@@ -875,7 +923,7 @@ def run(ctx):
          "again": [[], [1], [0, 1, 2]]},
         {"wc": False, "n": 2, "m": 1, "tols": [0.1, 0.1], "objs": q1, "batches": [[[0.5, 0.5]], [[0.1, 0.2]], []], "again": [[], [0], [0, 1]]},
     ]
-    OFF = {"vec_numpy": False, "reuse_list": False, "shared_param": False, "constr": False, "id_collide": False}
+    OFF = {"vec_numpy": False, "reuse_list": False, "shared_param": False, "constr": False, "id_collide": False, "rep": "float", "int_params": False}
     corpus += [
         # designs evaluated by a plain Evaluator before they are submitted; numpy vectors; one list object re-used for every
         # call; one parameter dict shared by all axes; constraint (feasibility flag varies); colliding ids; vectors whose
@@ -918,6 +966,36 @@ def run(ctx):
     ]
     for f in failing:
         add(gen_case(rng, dict({"flags": OFF}, **dict(f, criteria=["minimize", "maximize"][:f["m"]], ret_numpy=False))))
+    # red-team round 2 (RT2_C14_2): every representation of a design vector, both evaluators.  Integral coordinates, negative ones
+    # included (an int array truncates x + 1e-4 towards zero: 2 -> 2, -1 -> 0), int and float tolerances, two batches.
+    ib = [[[2.0, -1.0], [0.0, 3.0]], [[-2.0, 1.0]]]
+    for wc in (False, True):
+        for rep, types in (("int", ["i", "i"]), ("mixed", ["i", "f"]), ("mixed", ["f", "i"]), ("npint", ["i", "i"]), ("npfloat", ["f", "f"]),
+                           ("npmixed", ["i", "f"]), ("npmixed", ["f", "i"]), ("float", ["f", "f"])):
+            add(gen_case(rng, {"wc": wc, "n": 2, "m": 2, "tols": [0.25, 1.0], "objs": q2, "batches": ib, "types": types, "fails": [],
+                               "criteria": ["minimize", "maximize"], "ret_numpy": False, "flags": dict(OFF, rep=rep)}))
+        add(gen_case(rng, {"wc": wc, "n": 3, "m": 1, "tols": [1.0, 2.0, 0.5], "objs": q1, "batches": [[[1.0, -3.0, 5.0]], [[1.0, -3.0, 5.0], [0.0, 0.0, 0.0]]],
+                           "types": ["i", "i", "i"], "fails": [0, 5], "criteria": ["minimize"], "ret_numpy": False,
+                           "flags": dict(OFF, rep="int", int_params=True, reuse_list=True)}))      # re-drawn designs are int lists as well
+    # an INTEGER ndarray is not among them: numpy truncates the displaced coordinate on assignment in the unchanged code too
+    # (neighbour == design, gradient 0 / 30000): outside the assumed domain, probed and recorded, never judged (notes/C14.md)
+    hist["integer_ndarray_probe"] = {}
+    for wc in (False, True):
+        pc = gen_case(rng, {"wc": wc, "n": 2, "m": 1, "tols": [0.25, 1.0], "objs": q1, "batches": [[[2.0, -1.0]]], "fails": [],
+                            "criteria": ["minimize"], "ret_numpy": False, "flags": OFF})
+        try:
+            pp = Prob(case=pc)
+            pa = Direct(pp, evaluator_type=EvaluatorType.WORST_CASE if wc else EvaluatorType.GRADIENT)
+            px = Individual(np.array([2, -1]))
+            pa.evaluate([px])
+            got = [[float(t) for t in ch.vector] for ch in px.children]
+            hist["integer_ndarray_probe"]["worst_case" if wc else "gradient"] = {
+                "design": [2, -1], "neighbours": got, "neighbours_displaced_as_the_property_says":
+                got == ([[1.75, -1.0], [2.25, -1.0], [2.0, -2.0], [2.0, 0.0]] if wc else [[2.0001, -1.0], [2.0, -0.9999]])}
+            pp.cleanup()
+            pp.working_dir = ""
+        except Exception as e:
+            hist["integer_ndarray_probe"]["worst_case" if wc else "gradient"] = {"raised": repr(e)}
     for _ in range(ctx.pick(450, 6000)):
         add(gen_case(rng))
     for _ in range(ctx.pick(12, 100)):
@@ -929,7 +1007,9 @@ def run(ctx):
     ctx.rule = ("whole evaluator lives: 1..4 batches of 1..4 fresh designs (vectors from a grid of %d values so that designs, neighbours and "
                 "batches share vectors), 1..3 parameters with tolerances from %r, 1..2 user objectives from the families %r with grid "
                 "coefficients, pushed through Algorithm.evaluate with EvaluatorType.WORST_CASE / GRADIENT, plus short EpsMOEA / NSGAII runs "
-                "with either evaluator (generations = batches) and a hand-written corpus; side streams: evaluated designs submitted again (12%%), "
+                "with either evaluator (generations = batches) and a hand-written corpus; design vectors given as lists of float / of int only / "
+                "mixed int and float / of numpy.int64 / numpy.float64 scalars or as float ndarrays (18 directed corpus cases), parameters "
+                "declared 'integer' (re-draws are int lists); side streams: evaluated designs submitted again (12%%), "
                 "designs evaluated by a plain Evaluator first (10%%), numpy vectors, one re-used batch list object, a shared parameter dict, "
                 "an inequality constraint, colliding ids; scripted transient failures of the objective (40%% of the direct cases, 60%% of the "
                 "algorithm runs, 13 directed corpus cases: 1..3 runs of 1..4 consecutive global call numbers, on designs and on neighbours, with "
